@@ -102,12 +102,61 @@ Record INV (c : cfg) (s : st) : Prop := mkINV {
 Lemma inv_st0 c : INV c st0.
 Proof.
   constructor; simpl; try reflexivity; try discriminate; auto.
-  - intros _. repeat split; reflexivity.
-  - exists []. split; reflexivity.
+  exists []. split; reflexivity.
 Qed.
 
 Lemma inv_linked c : INV c st_linked.
 Proof.
   constructor; simpl; try reflexivity; try discriminate; auto.
-  - exists []. split; reflexivity.
+  exists []. split; reflexivity.
 Qed.
+
+(* ------------------------------------------------------------------------------------------ *)
+(* preservation *)
+
+Ltac bsplit :=
+  repeat match goal with
+  | |- context [if ?b then _ else _] => destruct b eqn:?
+  | H : context [if ?b then _ else _] |- _ => destruct b eqn:?
+  end.
+
+Ltac listfin :=
+  repeat (rewrite ?written_app, ?count_eof_app, ?count_close_app, ?app_nil_r, <- ?app_assoc in *;
+          cbn [written count_eof count_close app] in * );
+  try solve [auto | congruence | lia | discriminate
+            | apply ordered_snoc; cbn [is_data_or_eof]; solve [auto | congruence | discriminate | lia] ].
+
+Ltac spec_all :=
+  repeat match goal with
+  | H : ?x = ?x -> _ |- _ => specialize (H eq_refl)
+  | H : true = false -> _ |- _ => clear H
+  | H : false = true -> _ |- _ => clear H
+  | H : Pending = Failed -> _ |- _ => clear H
+  | H : Confirmed = Failed -> _ |- _ => clear H
+  | H : _ /\ _ |- _ => destruct H
+  | H : exists _, _ |- _ => destruct H
+  end.
+
+Ltac fieldfin :=
+  cbn; intros; spec_all; subst;
+  try match goal with |- exists t, _ => eexists; split; [|intros] end;
+  listfin.
+
+Ltac cases :=
+  cbn in *;
+  repeat match goal with
+  | b : bool |- _ => destruct b; cbn in *; try discriminate
+  end;
+  spec_all; try discriminate; subst.
+
+Lemma inv_step c s o : INV c s -> INV c (step c s o).
+Proof.
+  intros H. unfold step. destruct (legal s o) eqn:Hl; [|exact H].
+  destruct s as [[ta pa ba ea] [tb pb bb eb] p oa ob la lb ia ib asr].
+  destruct H as [H1 H2 H3 H4 H5 H6 H7 H8 H9 H10 H11 H12 H13 H14 H15 H16 H17 H18 H19].
+  cbn in H1, H2, H3, H4, H5, H6, H7, H8, H9, H10, H11, H12, H13, H14, H15, H16, H17, H18, H19.
+  subst pa tb bb. destruct c as [fc fl fr].
+  destruct o.
+  all: try solve [destruct p; cases; constructor; fieldfin].
+  all: destruct p; cases; constructor; fieldfin.
+Abort.
